@@ -57,7 +57,9 @@ Group(es, acc) ==
                ELSE acc @@ (k :> v))
 
 Digit(i) == CASE i = 0 -> "0" [] i = 1 -> "1" [] i = 2 -> "2" [] i = 3 -> "3" [] i = 4 -> "4" [] i = 5 -> "5" [] i = 6 -> "6" [] i = 7 -> "7" [] i = 8 -> "8" [] i = 9 -> "9"
-SeqTok(i) == [t |-> "i", v |-> <<Digit(i)>>]
+RECURSIVE Digits(_)
+Digits(i) == IF i < 10 THEN <<Digit(i)>> ELSE Digits(i \div 10) \o <<Digit(i % 10)>>
+SeqTok(i) == [t |-> "i", v |-> Digits(i)]
 WithSeq(o, v, i) == IF ~o.tagseq THEN v
                     ELSE IF IsMap(v) THEN VM([k \in (DOMAIN v.kv) \cup {SeqKeyC} |-> IF k = SeqKeyC THEN SeqTok(i) ELSE v.kv[k]])
                     ELSE VM((TextKey(o) :> v) @@ (SeqKeyC :> SeqTok(i)))
